@@ -596,7 +596,59 @@ def rule_g(ctx: Ctx) -> None:
     ctx.min_instances("generator_functions_scanned", n, 800)
 
 
-RULES = [rule_a, rule_b, rule_c, rule_d, rule_e, rule_f, rule_g]
+def _suffix_surgery(fn: ast.AST) -> list[tuple[ast.AST, ast.Call]]:
+    """(surgery node, render call) for `self.sql(node).rstrip(..)`, `self.sql(node)[:-k]`, `.removesuffix(..)` — directly or through a local bound once from the render."""
+    def render_of(e: ast.AST, local: dict[str, ast.Call]) -> ast.Call | None:
+        if isinstance(e, ast.Call) and norm(e.func) == "self.sql":
+            return e
+        if isinstance(e, ast.Name):
+            return local.get(e.id)
+        return None
+
+    local: dict[str, ast.Call] = {}
+    for st in ast.walk(fn):
+        if isinstance(st, ast.Assign) and len(st.targets) == 1 and isinstance(st.targets[0], ast.Name) and isinstance(st.value, ast.Call) and norm(st.value.func) == "self.sql":
+            local.setdefault(st.targets[0].id, st.value)
+    out = []
+    for x in ast.walk(fn):
+        if isinstance(x, ast.Call) and isinstance(x.func, ast.Attribute) and x.func.attr in ("rstrip", "removesuffix"):
+            r = render_of(x.func.value, local)
+            if r is not None:
+                out.append((x, r))
+        elif isinstance(x, ast.Subscript) and isinstance(x.slice, ast.Slice) and x.slice.lower is None and isinstance(x.slice.upper, ast.UnaryOp) and isinstance(x.slice.upper.op, ast.USub):
+            r = render_of(x.value, local)
+            if r is not None:
+                out.append((x, r))
+    return out
+
+
+def rule_h(ctx: Ctx) -> None:
+    ctx.rule("C07.h", "the end of rendered SQL is cut only when it was rendered without comments: comments are appended after a node's SQL, so `self.sql(node).rstrip(')')`, "
+                      "`self.sql(node)[:-1]` or `.removesuffix(..)` (opening a rendered call again to add arguments) operate on `... ) /* c */` when the node carries a comment — "
+                      "the render must pass comment=False")
+    ctx.require(len(_suffix_surgery(ast.parse("def f(self, e):\n    t = self.sql(e, 'this').rstrip(')')\n").body[0])) == 1, "positive control failed: suffix surgery not recognised")
+    n = 0
+    for f in ctx.repo.all_funcs():
+        m = f.module
+        if not (m.name.startswith(("sqlglot.generator", "sqlglot.generators.")) or m.name == "sqlglot.dialects.dialect"):
+            continue
+        if ".<locals>." in f.qualname:
+            continue
+        for node, render in _suffix_surgery(f.node):
+            n += 1
+            clean = any(k.arg == "comment" and isinstance(k.value, ast.Constant) and k.value.value is False for k in render.keywords)
+            # self.sql(e, "key") of a plain-string argument returns the string itself
+            plain = len(render.args) >= 2 and isinstance(render.args[1], ast.Constant) and render.args[1].value in PLAIN_STRING_ARGS
+            if clean or plain:
+                ctx.ok(f"{f.key}|{norm(node, 70)}", {"render": norm(render, 60)})
+            else:
+                ctx.fail(m, node, f.key, node, f"`{norm(node, 80)}` cuts the end of `{norm(render, 50)}`, which is rendered with the node's comments: with a comment on that node the text "
+                                               f"ends in `/* ... */` and the cut removes nothing (or the wrong characters), so comments=True produces malformed SQL")
+    ctx.count("suffix_cuts_of_rendered_sql", n)
+    ctx.min_instances("suffix_cuts_of_rendered_sql", n, 2)
+
+
+RULES = [rule_a, rule_b, rule_c, rule_d, rule_e, rule_f, rule_g, rule_h]
 EXPLANATION = (
     "Pairing and confinement rules on the generator: the sentinel's single guarded insertion/removal pair with "
     "post-domination of generate()'s returns and delegation of overrides, injectivity of the substitution, flow of "
